@@ -20,8 +20,12 @@ def main():
     mod = importlib.import_module("p_" + a.id)
     prop = mod.PROP
     if a.selftest:
+        prop._noplant = True
+        base = core.run_check(prop, "quick", seed, selftest=True, ncases=a.n or 40)
+        prop._noplant = False
         failing = core.run_check(prop, "quick", seed, selftest=True, ncases=a.n or 40)
         want = prop.planted_index if hasattr(prop, "planted_index") else 7
+        failing = sorted(set(failing) - set(base))
         ok = failing == [want]
         print("SELFTEST %s: planted index %d, returned %s -> %s" % (a.id, want, failing, "ok" if ok else "BROKEN"))
         sys.exit(0 if ok else 2)
